@@ -66,6 +66,10 @@ pub struct EntryRecord {
     pub clock_reads: u64,
     /// true if the entry was left by unwinding past its exit hook (step cap)
     pub open: bool,
+    /// the entry read a clock value at or past its own deadline (its timeout fired)
+    pub deadline_seen: bool,
+    /// the reading that armed the deadline
+    pub first_reading: u64,
 }
 
 #[derive(Default)]
@@ -103,6 +107,8 @@ pub struct VClock {
     pub max_records: Cell<usize>,
     /// entries that ran at least this long are always recorded
     pub keep_threshold: Cell<u64>,
+    /// the execution limit of the run (to recognise the check that fires)
+    pub limit: Cell<u64>,
     pub entries_total: Cell<u64>,
 }
 
@@ -129,6 +135,7 @@ impl Default for VClock {
             last_read: Cell::new(u64::MAX),
             max_records: Cell::new(256),
             keep_threshold: Cell::new(u64::MAX),
+            limit: Cell::new(u64::MAX),
             entries_total: Cell::new(0),
         }
     }
@@ -191,6 +198,7 @@ impl VClock {
         // Short entries that never performed a deadline check cannot matter to any oracle;
         // everything else is always kept.
         let relevant = rec.open
+            || rec.deadline_seen
             || rec.clock_reads > 1
             || rec.last_instruction_start.saturating_sub(rec.start) >= self.keep_threshold.get();
         let mut f = self.finished.borrow_mut();
@@ -233,6 +241,11 @@ impl VerifSim for VClock {
             // the instruction that was just counted executes; that instruction belongs to the
             // next interval, which only shifts the count by one.
             l.rec.clock_reads += 1;
+            if l.rec.clock_reads == 1 {
+                l.rec.first_reading = reading;
+            } else if reading >= l.rec.first_reading.saturating_add(self.limit.get()) {
+                l.rec.deadline_seen = true;
+            }
             if l.rec.clock_reads > 1 {
                 let mut cur = std::mem::take(&mut l.cur);
                 cur.dur = now - l.interval_start;
